@@ -1,4 +1,5 @@
 """Event alphabet, event application, fingerprints and the small-scope explorer (DESIGN.md 2.2, 4.1, 4.2)."""
+import copy
 import random
 import struct
 
@@ -25,6 +26,11 @@ MSGS = {
     'OPEN_badver': (peer_open(ver=3), dict(kind='OPEN', ver=3, asn=65002, hold=90)),
     'OPEN_badas': (peer_open(asn=65009), dict(kind='OPEN', ver=4, asn=65009, hold=90)),
     'OPEN_nocap': (peer_open(caps=None), dict(kind='OPEN', ver=4, asn=65002, hold=90)),
+    # My Autonomous System 0 (never a peer's AS: Bad Peer AS), and an optional parameter that is not Capabilities (the
+    # deprecated Authentication parameter, type 1: Unsupported Optional Parameters, RFC 4271 6.2)
+    'OPEN_as0': (peer_open(asn=0, caps=None), dict(kind='OPEN', ver=4, asn=0, hold=90)),
+    'OPEN_optauth': (frame(1, struct.pack('!BHHIB', 4, 65002, 90, 0x0a000002, 4) + b'\x01\x02\x00\x00'),
+                     dict(kind='OPEN', ver=4, asn=65002, hold=90, unsup_opt=True)),
     # a recognized capability (4-octet AS) whose value has the wrong length: malformed optional parameter
     'OPEN_badcap': (peer_open(caps=[(1, struct.pack('!HBB', 1, 0, 1)), (65, b'\x00\x01')]), dict(kind='OPEN', ver=4, asn=65002, hold=90, malformed=True)),
     'KA': (KEEPALIVE, dict(kind='KA')),
@@ -67,7 +73,7 @@ for _k in range(0, 6):
     MSGS['UPD_atlen_end-%d' % _k] = (frame(2, _b[:2] + struct.pack('!H', len(_b) - 4 + 2 - _k) + _b[4:]), dict(kind='UPD'))
     LENGTH_EDGE += ['UPD_wdlen_end-%d' % _k, 'UPD_atlen_end-%d' % _k]
 ODD_LENGTH = ['OPEN_short', 'UPD_short', 'NOTI_short', 'KA_long', 'RR_short', 'RR_orf']
-ALPHABET_C01 = ['OPEN', 'OPEN_h0', 'OPEN_h1', 'OPEN_h2', 'OPEN_h9', 'OPEN_badver', 'OPEN_badas', 'OPEN_badcap',
+ALPHABET_C01 = ['OPEN', 'OPEN_h0', 'OPEN_h1', 'OPEN_h2', 'OPEN_h9', 'OPEN_badver', 'OPEN_badas', 'OPEN_badcap', 'OPEN_as0', 'OPEN_optauth',
                 'KA', 'UPD', 'UPD1', 'UPD_unkfam', 'UPD_malformed', 'UPD_wdoverrun', 'NOTI_VER', 'NOTI_CEASE', 'NOTI_HDR', 'NOTI_UPD', 'NOTI_HOLD', 'NOTI_FSM', 'NOTI_RR', 'NOTI_UNK', 'RR', 'BADMARK', 'BADLEN', 'BADLEN0',
                 'BADLEN4097', 'BADTYPE', 'OPEN_short', 'UPD_short', 'NOTI_short', 'KA_long']
 ALPHABET_SMALL = ['OPEN', 'OPEN_h1', 'OPEN_badas', 'KA', 'UPD', 'NOTI_VER', 'NOTI_CEASE', 'BADMARK']
@@ -129,6 +135,15 @@ class RandomChooser(object):
         return i
 
 
+# requests an application hands to the agent through handler.inter_mq (yabgp/handler/__init__.py)
+QUEUED = {
+    'Q_UPD': {'type': 'update', 'msg': {'attr': {1: 0, 2: [], 3: '10.0.0.1', 5: 100}, 'nlri': ['203.0.113.0/24'], 'withdraw': []}},
+    'Q_WD': {'type': 'update', 'msg': {'attr': {}, 'nlri': [], 'withdraw': ['203.0.113.0/24']}},
+    'Q_NOTI': {'type': 'notification', 'msg': {'error': 6, 'sub_error': 4, 'data': b''}},
+    'Q_OTHER': {'type': 'route-refresh', 'msg': {}},
+}
+
+
 def apply_event(w, ev, rng=None):
     """Apply one environment event.  Returns dict(applied, sizes) where sizes are the
     same-instant ready-set sizes met while the event was processed."""
@@ -159,6 +174,9 @@ def apply_event(w, ev, rng=None):
     elif name in REST_SENDS:
         method, path, body = REST_SENDS[name][:3]
         ok = w.rest(method, path, json_body=body, **({'headers': REST_SENDS[name][3]} if len(REST_SENDS[name]) > 3 else {}))
+    elif name in QUEUED:
+        # the application asks for a message through the handler's internal queue (sent when the next KEEPALIVE arrives)
+        w.handler.inter_mq.put(copy.deepcopy(QUEUED[name]))
     elif name in MSGS:
         trs = w.live()
         ok = idx < len(trs) and w.deliver(MSGS[name][0], trs[idx])
